@@ -1637,6 +1637,10 @@ const NUMS: &[&str] = &[
     "0", "1", "5", "00", "307445734561825861", "999999999999999999", "5124095576030431", "18446744073709551615",
     "18446744073709551616", "9223372036854775807", "4294967296", "-1", "1.5", "99999999999999999999999",
     "-9223372036854775808", "2147483648", "1e308", "0.0", ".5", "3.",
+    // decimal amounts whose value leaves u64 seconds / f64 once a unit factor is applied
+    "18446744073709551616.0", "5124095576030432.5", "307445734561825861.25", "99999999999999999999999.9", "18446744073709551615.999",
+    "1e400", "1.7976931348623157e308", "0.000000000000000000000000000001", "-0.5", "1.5.5",
+    "99999999999999999999999999999999999999999999999999999999999999999999999999999999999999999999999999999999999999999999999999999999999999999999999999999999999999999999999999999999999999999999999999999999999999999999999999999999999999999999999999999999999999999999999999999999999999999999999999999999999999999999999999999999.5",
 ];
 
 /// Arithmetic / logical expressions over the keys of the small fact store: well-formed trees of
